@@ -130,7 +130,7 @@ fn run_c15(ctx: &mut Ctx, rep: &mut Report) {
             _ => rep.count("pre_first_rtr_refused", 1),
         }
     }
-    let n_versions = ctx.tier.pick(24u32, 200);
+    let n_versions = ctx.tier.pick(24u32, 4000);
     let mut versions: Vec<Model> = Vec::new();
     for k in 0..n_versions { versions.push(version_model(&mut rng, k)); }
     let versions = Arc::new(versions);
@@ -524,7 +524,7 @@ fn run_c17(ctx: &mut Ctx, rep: &mut Report) {
     let mut k = 0u32;
     if srv.install(&hooks, &version_model(&mut rng, k)).is_err() { rep.inconclusive("first update failed"); return }
     let session = srv.history.read().session();
-    let rounds = ctx.tier.pick(10usize, 120);
+    let rounds = ctx.tier.pick(10usize, 1500);
     let point = "notify.before_subscribe";
     for round in 0..rounds {
         if !ctx.time_left() { rep.note("time budget reached"); break }
